@@ -52,15 +52,16 @@ func SiteName(site int32) string {
 }
 
 type task struct {
-	id      int
-	goid    int64
-	name    string
-	spawn   int32 // site that spawned it
-	foreign bool  // not started through simrt.Go
-	wake    chan struct{}
-	spin    int64 // yield points passed since the last release
-	spunOut atomic.Int64 // how often it had to be stopped for never blocking
-	quantum int64 // owned by the task while it runs, by the controller while it is parked (accessed from norace code only)
+	id       int
+	goid     int64
+	name     string
+	spawn    int32 // site that spawned it
+	foreign  bool  // not started through simrt.Go
+	wake     chan struct{}
+	spin     int64        // yield points passed since the last release
+	spunOut  atomic.Int64 // how often in a row it had to be stopped for never blocking
+	lastSpun bool
+	quantum  int64 // owned by the task while it runs, by the controller while it is parked (accessed from norace code only)
 }
 
 type msgKind uint8
@@ -112,7 +113,8 @@ type Sim struct {
 	MaxSteps int
 	Panics   []string
 	Nondet   []string
-	Livelock string // set when a task was stopped 25 times in a row for passing 20000 yield points without blocking
+	Livelock string // set when a task was stopped SpinOuts times in a row for passing 20000 yield points without blocking
+	SpinOuts int    // default 400 (8 million yield points); harnesses with long legitimate computations raise it
 	sig      uint64
 	pairs    map[uint64]struct{}
 	lastSite int32
@@ -140,6 +142,7 @@ func New(c *Choices) *Sim {
 		parkSite: map[int]int32{},
 		alive:    map[int]*task{},
 		MaxSteps: 200000,
+		SpinOuts: 400,
 		Quanta:   DefaultQuanta,
 		pairs:    map[uint64]struct{}{},
 		lastRun:  -1,
@@ -187,8 +190,15 @@ func (s *Sim) yield(site int32) {
 		// loop) must come back to the controller eventually, whatever its
 		// quantum, so that the step budget can catch it.
 		t.spin++
+		if t.spin == 1 {
+			if !t.lastSpun {
+				t.spunOut.Store(0) // the previous release ended by parking or blocking in time
+			}
+			t.lastSpun = false
+		}
 		if t.spin >= spinLimit {
 			t.spunOut.Add(1)
+			t.lastSpun = true
 		} else {
 			if site&7 == KStmt && !s.StmtPreempt {
 				return
@@ -277,6 +287,7 @@ func (s *Sim) mustCtl() {
 
 // Settle waits until every other goroutine of the bubble is durably blocked
 // and absorbs their messages.
+//
 //go:norace
 func (s *Sim) Settle() {
 	s.mustCtl()
@@ -299,7 +310,7 @@ func (s *Sim) Settle() {
 				case mPark:
 					s.parked[m.t.id] = m.t
 					s.parkSite[m.t.id] = m.site
-					if n := m.t.spunOut.Load(); n >= 25 && s.Livelock == "" {
+					if n := m.t.spunOut.Load(); n >= int64(s.SpinOuts) && s.Livelock == "" {
 						s.Livelock = fmt.Sprintf("task %d (%s) passed %d x %d yield points without blocking, last at %s", m.t.id, m.t.name, n, spinLimit, SiteName(m.site))
 					}
 				case mExit:
@@ -365,6 +376,7 @@ func (s *Sim) Step() bool {
 	q := s.Quanta[s.C.Choose("quantum", len(s.Quanta))]
 	s.release(id, q)
 	s.Settle()
+	s.current.Store(nil)
 	return true
 }
 
@@ -377,6 +389,7 @@ func (s *Sim) StepTask(id int, quantum int) bool {
 	}
 	s.release(id, quantum)
 	s.Settle()
+	s.current.Store(nil)
 	return true
 }
 
@@ -454,6 +467,7 @@ func (s *Sim) OverBudget() bool { return s.Steps >= s.MaxSteps || s.Livelock != 
 
 // Advance moves the fake clock forward by d (timers that expire wake their
 // goroutines, which then stop at their next yield point).
+//
 //go:norace
 func (s *Sim) Advance(d time.Duration) {
 	s.Settle()
